@@ -8,6 +8,7 @@ use std::sync::*;
 #[cfg(desync_verif)]
 use vsched::sync::*;
 use std::collections::vec_deque::*;
+use std::panic;
 
 use futures::task;
 use futures::task::{Context};
@@ -298,7 +299,10 @@ impl SchedulerCore {
 
                             // Run the job if there is one, stop the thread if there is not
                             if let Some(job_data) = job_data {
-                                job(job_data);
+                                // A job that panics takes its queue with it (the queue is marked as panicked while the panic unwinds), but
+                                // it must not take this thread: other queues may be waiting in the schedule for a thread to become free,
+                                // and nothing would ever run them if the last scheduling request has already been made
+                                let _ = panic::catch_unwind(panic::AssertUnwindSafe(|| job(job_data)));
                             } else {
                                 done = true;
                             }
